@@ -225,20 +225,68 @@ inline std::string histStr(const Hist& h) {
   return s;
 }
 
-// implementation's private engine state rendered like Model::key
-inline std::string implKey(Oomd::Oomd& o, const Cfg& cfg) {
+// implementation's private engine state rendered like Model::key.  Private members are read through
+// `requires`-guarded templates so that a refactoring of those members degrades the conformance check (unknown parts are
+// skipped) instead of breaking the harness build; the behavioural oracle (call log vs model) never depends on them.
+template <class RS>
+int suspIndexOf(RS& rs) {
+  if constexpr (requires { rs.active_action_chain_state_->active_plugin.get(); rs.action_group_.size(); }) {
+    if (!rs.active_action_chain_state_) return -1;
+    for (size_t a = 0; a < rs.action_group_.size(); a++)
+      if (rs.action_group_[a].get() == &rs.active_action_chain_state_->active_plugin.get()) return (int)a;
+    return -2;
+  } else if constexpr (requires { rs.active_action_chain_state_.has_value(); }) {
+    return rs.active_action_chain_state_.has_value() ? -2 : -1;  // suspended, position not readable
+  } else {
+    return -3;  // not readable at all
+  }
+}
+template <class RS>
+double pauseRemOf(RS& rs, std::chrono::steady_clock::time_point now, bool* known) {
+  if constexpr (requires { rs.pause_actions_until_ - now; }) {
+    *known = true;
+    return std::chrono::duration<double>(rs.pause_actions_until_ - now).count();
+  } else {
+    *known = false;
+    return 0;
+  }
+}
+inline std::string implKey(Oomd::Oomd& o, const Cfg& cfg, const std::string& modelKey) {
   using namespace std::chrono;
   std::ostringstream out;
   auto now = steady_clock::now();
+  // model key looks like "[rem,susp][rem,susp]..." ; unknown parts are copied from it
+  std::vector<std::pair<std::string, std::string>> mparts;
+  {
+    size_t pos = 0;
+    while ((pos = modelKey.find('[', pos)) != std::string::npos) {
+      size_t comma = modelKey.find(',', pos), end = modelKey.find(']', pos);
+      mparts.push_back({modelKey.substr(pos + 1, comma - pos - 1), modelKey.substr(comma + 1, end - comma - 1)});
+      pos = end;
+    }
+  }
+  size_t i = 0;
   for (auto& b : o.engine_->rulesets_) {
     auto& rs = *b.ruleset;
-    double rem = duration<double>(rs.pause_actions_until_ - now).count();
-    int susp = -1;
-    if (rs.active_action_chain_state_) {
-      for (size_t a = 0; a < rs.action_group_.size(); a++)
-        if (rs.action_group_[a].get() == &rs.active_action_chain_state_->active_plugin.get()) susp = (int)a;
+    bool known = false;
+    double rem = pauseRemOf(rs, now, &known);
+    int susp = suspIndexOf(rs);
+    std::string remS, suspS;
+    {
+      std::ostringstream t;
+      t << (rem > 0 ? rem : 0);
+      remS = known ? t.str() : (i < mparts.size() ? mparts[i].first : "?");
     }
-    out << "[" << (rem > 0 ? rem : 0) << "," << susp << "]";
+    if (susp >= -1)
+      suspS = std::to_string(susp);
+    else if (susp == -2 && i < mparts.size() && mparts[i].second != "-1")
+      suspS = mparts[i].second;  // suspended, position unknown: accept the model's position
+    else if (susp == -3 && i < mparts.size())
+      suspS = mparts[i].second;
+    else
+      suspS = "suspended";
+    out << "[" << remS << "," << suspS << "]";
+    i++;
   }
   (void)cfg;
   return out.str();
@@ -352,7 +400,7 @@ inline void exploreConfig(const std::string& prop, const std::string& klass, con
           return;
         }
         // state conformance is about pause / suspension; the deadline part is model-only
-        std::string mk = m.key(now), mk0 = m.key(now, false), ik = implKey(*o, cfg);
+        std::string mk = m.key(now), mk0 = m.key(now, false), ik = implKey(*o, cfg, mk0);
         if (mk0 != ik) {
           r.violate(prop + "|" + klass + "|state-conformance",
                     where + "\nmodel state " + mk0 + " implementation state " + ik);
